@@ -568,7 +568,7 @@ def cc_judge_run(arch, out, exp):
             op = ":" + m.group(1)
         return "error", "emul-error:%s@%s%s" % (out["exc"], out["where"], op), out["msg"]
     if out["kind"] == "runaway":
-        return "steplimit", None, ""
+        return "steplimit", "runaway", "no return within the step limit of %d instructions" % _limit[0]
     if out["kind"] == "jitexc":
         return "fail", "jitter-exception", "JitterException flags 0x%x at pc=0x%x" % (out["flags"], out["pc"])
     eret, earr = exp
@@ -651,6 +651,8 @@ def cc_explain(ctx, case, out, status, resource, detail, batch=None, k=0):
                         "with jit_maxline=100000 (no block cut): the failure depends on block partitioning / state "
                         "kept between runs, not on an instruction's semantics -- C: %s"
                         % (head, detail, len(trace), src))
+    if status == "steplimit":
+        return None
     if status == "error":
         at = "lift"
         if trace and ("symbexec" in out["where"] or "expression" in out["where"] or "jitcore_python" in out["where"]):
@@ -839,7 +841,16 @@ class C19(Check):
                 out = runner.run(args, arr)
                 status, resource, detail = cc_judge_run(arch, out, exp)
                 if status == "steplimit":
-                    res.dropped["cc: run stopped at the step limit (inconclusive, not a verdict)"] += 1
+                    # inconclusive, unless the same bytes return the native result when blocks are not cut
+                    case = {"kind": "cc", "arch": arch, "opt": opt, "tag": ftag, "src": src, "args": list(args),
+                            "arr": list(arr)}
+                    expl = cc_explain(ctx, case, out, status, resource, detail, batch=funcs, k=k)
+                    if expl is None:
+                        res.dropped["cc: run stopped at the step limit (inconclusive, not a verdict)"] += 1
+                    else:
+                        case["_bucket"] = expl[0]
+                        res.case(nontrivial_key=(arch, opt, ftag, tuple(args), tuple(arr)))
+                        res.fail(expl[0], expl[1], case)
                     continue
                 if status == "unsupported":
                     mn = cc_unsupported_text(arch, code, out["pc"]) if detail == "UNK_MNEMO" else detail
@@ -964,7 +975,7 @@ class C19(Check):
             with quiet_stderr():
                 ctx = CcCtx(wd)
                 funcs = [(case["tag"], case["src"])]
-                _limit[0] = STEP_LIMIT["thorough"]
+                _limit[0] = STEP_LIMIT["quick"]
                 code = ctx.compile(arch, opt, funcs)[0]
                 if code is None:
                     return []
@@ -973,9 +984,10 @@ class C19(Check):
                     return []
                 out = CcRunner(arch, code).run(case["args"], case["arr"])
                 status, resource, detail = cc_judge_run(arch, out, exp)
-                if status in ("pass", "unsupported", "steplimit"):
+                if status in ("pass", "unsupported"):
                     return []
-                return [cc_explain(ctx, case, out, status, resource, detail)]
+                expl = cc_explain(ctx, case, out, status, resource, detail)
+                return [expl] if expl is not None else []
         finally:
             shutil.rmtree(wd, ignore_errors=True)
 
